@@ -70,6 +70,35 @@ def late_failure(rng, sch, ty, base):
     return base + rec if pos == 'end' else rec + base
 
 
+def oneof_switch_fail(rng, sch, ty, base):
+    """a oneof member is set (preferably one that owns memory and is wider than the others), then another member of the same
+    oneof arrives with a wire type it does not accept: the first member has been released, the parse fails, and the
+    clean-up must not release it again (seeded change S66)"""
+    m = sch.msgs[ty]
+    groups = {}
+    for f in m.fields:
+        if f.oneof:
+            groups.setdefault(f.group, []).append(f)
+    groups = [g for g in groups.values() if len(g) >= 2]
+    if not groups:
+        return None
+    g = rng.choice(groups)
+    wide = [f for f in g if f.type in (T_BYTES, T_STRING)]
+    a = rng.choice(wide) if (wide and rng.random() < 0.8) else rng.choice([f for f in g if f.type != T_MESSAGE] or g)
+    if a.type == T_MESSAGE:
+        return None
+    bcands = [f for f in g if f is not a]
+    b = rng.choice(bcands)
+    va = ('bin', 5, 'B', b'owned') if a.type == T_BYTES else ('str', 'S', b'owned') if a.type == T_STRING else rand_val(rng, sch, a, 9)
+    rec_a = enc_elem(sch, a, va, rng, {})
+    if b.type == T_MESSAGE and rng.random() < 0.5:
+        rec_b = enc_key(b.id, 2) + b'\x02\xff\xff'          # right wire type, malformed embedded message
+    else:
+        wt = rng.choice([w for w in (0, 1, 2, 5) if w != wire_type(b.type)])
+        rec_b = enc_key(b.id, wt) + {0: b'\x01', 1: bytes(8), 5: bytes(4), 2: b'\x01a'}[wt]
+    return base + rec_a + rec_b
+
+
 def gen_wire_cases(rng, n, big, ops=('unpack', 'acc')):
     lines = []
     stats = {'schemas': 0, 'valid': 0, 'knobbed': 0, 'mutated': 0, 'random': 0}
@@ -85,9 +114,13 @@ def gen_wire_cases(rng, n, big, ops=('unpack', 'acc')):
             late = late_failure(rng, sch, ty, encs[0][1])
             if late is not None:
                 encs.append(('mutated', late))
+            sw = oneof_switch_fail(rng, sch, ty, encs[0][1])
+            if sw is not None:
+                encs.append(('mutated', sw))
             for _ in range(2):
                 knobs = {'pad': rng.random() < 0.6, 'flip_packed': rng.random() < 0.5, 'split_packed': rng.random() < 0.5,
-                         'stale': rng.random() < 0.5, 'shuffle': rng.random() < 0.6, 'empty_packed': rng.random() < 0.4}
+                         'stale': rng.random() < 0.5, 'shuffle': rng.random() < 0.6, 'empty_packed': rng.random() < 0.4,
+                         'multi_oneof': rng.random() < 0.4, 'omit_req_dflt': rng.random() < 0.4}
                 encs.append(('knobbed', encode(sch, m, rng, knobs)))
             base = encs[rng.randrange(len(encs))][1]
             for _ in range(3):
@@ -195,10 +228,22 @@ def gen_alloc_cases(rng, n, big, faults):
         # half of the schemas are rich in fields that own heap blocks (strings, bytes, sub-messages)
         sch = rand_schema(rng, big=big or rng.random() < 0.08,
                           types=([T_STRING] * 4 + [T_BYTES] * 3 + [T_MESSAGE] * 3 + list(range(17))) if rng.random() < 0.5 else None)
+        # some schemas have a message type with more than 128 fields: the required-field bitmap is then a heap block
+        # of its own, with its own allocation, failure and release sites (seeded change S57)
+        wide = []
+        if stats['schemas'] == 1 or rng.random() < 0.08:       # the second schema of every run, and one in twelve after
+            for _try in range(60):
+                cand = rand_schema(rng, nmsgs=rng.choice([1, 2]), big=True, syntax=2,
+                                   types=([T_STRING] * 3 + [T_BYTES] * 2 + [T_MESSAGE] + list(range(17))))
+                wide = [i for i, m in enumerate(cand.msgs) if len(m.fields) > 128]
+                if wide:
+                    sch = cand
+                    break
         lines += sch.lines()
         stats['schemas'] += 1
+        stats['wide_schemas'] = stats.get('wide_schemas', 0) + (1 if wide else 0)
         for _ in range(rng.choice([3, 5])):
-            ty = rng.randrange(len(sch.msgs))
+            ty = rng.choice(wide) if (wide and rng.random() < 0.7) else rng.randrange(len(sch.msgs))
             m = rand_msg(rng, sch, ty, big=False)
             knobs = {'pad': rng.random() < 0.3, 'flip_packed': rng.random() < 0.4, 'split_packed': rng.random() < 0.5,
                      'stale': rng.random() < 0.6, 'shuffle': rng.random() < 0.5, 'empty_packed': rng.random() < 0.3,
